@@ -105,7 +105,7 @@ def validate_cvxpy(wrapper, rec, rng):
             M.value = Mv
             if not np.allclose(np.asarray(psd_c.args[0].value), Mv):
                 F("cvxpy_lmi_not_psd_of_auxiliary", "PSD constraint of an LMI is not 'M >> 0'")
-            seen = set()
+            emitted = {}       # unordered index pair of M -> list of right-hand-side values tied to that entry of M
             for _ in range(size * size):
                 if ptr >= len(cons) or type(cons[ptr]).__name__ != "Equality":
                     F("cvxpy_lmi_entry_missing", "fewer than n^2 entry equalities for an LMI of size %d" % size)
@@ -114,29 +114,21 @@ def validate_cvxpy(wrapper, rec, rng):
                 ptr += 1
                 lv = float(np.asarray(c.args[0].value).ravel()[0])
                 rv = float(np.asarray(c.args[1].value).ravel()[0])
-                # which entry of M does the left side select?  identify by value (random symmetric M)
-                hits = [(i, j) for i in range(size) for j in range(size) if abs(Mv[i, j] - lv) < 1e-12]
-                ok = False
-                for (i, j) in hits:
-                    want = canon.expr_value(o[i, j], Gv, Fv, idx)
-                    if abs(rv - want) <= 1e-9 * (1 + abs(want)) * (1 + n):
-                        ok = True
-                        seen.add((i, j))
-                        break
+                hits = [(i, j) for i in range(size) for j in range(i, size) if abs(Mv[i, j] - lv) < 1e-12]
                 n_eval += 1
-                if not ok:
-                    F("cvxpy_lmi_entry_wrong_denotation", "an entry equality of an LMI does not tie M[i,j] to entry (i,j)")
-            # every entry of the written matrix must be tied (either orientation identifies the same M entry by value)
-            for i in range(size):
-                for j in range(size):
-                    if (i, j) not in seen and (j, i) not in seen:
-                        F("cvxpy_lmi_entry_not_coupled", "entry (%d,%d) of an LMI is not tied to the auxiliary matrix" % (i, j))
-            # the written (i,j) and (j,i) entries must BOTH be imposed
+                if len(hits) != 1:
+                    F("cvxpy_lmi_entry_wrong_denotation", "the left side of an entry equality is not one entry of the auxiliary matrix")
+                    continue
+                emitted.setdefault(hits[0], []).append(rv)
+            # EVERY written entry (i,j) - both orientations when they differ as written - must be tied to M[i,j]
             for i in range(size):
                 for j in range(size):
                     want = canon.expr_value(o[i, j], Gv, Fv, idx)
-                    # there must exist an emitted equality whose right side is this entry
-                    pass
+                    got = emitted.get((min(i, j), max(i, j)), [])
+                    if not any(abs(rv - want) <= 1e-9 * (1 + abs(want)) * (1 + n) for rv in got):
+                        F("cvxpy_lmi_entry_not_coupled", "entry (%d,%d) of an LMI is not tied to entry (%d,%d) of its auxiliary matrix "
+                          "(%d equalities emitted on that entry)" % (i, j, i, j, len(got)))
+            extra_eq = sum(len(v) for v in emitted.values()) - size * size
     if ptr != len(cons):
         F("cvxpy_extra_constraints", "%d emitted cvxpy constraints do not correspond to any sent object" % (len(cons) - ptr))
     obj = rec.get("objective")
